@@ -37,12 +37,14 @@ UcumCp == <<104, 116, 116, 112, 58, 47, 47, 117, 110, 105, 116, 115, 111, 102, 1
 (*   coll   a system.Collection of supplied values                          *)
 (*   bad    a Go value of any other type                                    *)
 (*   nil    the untyped nil                                                 *)
+(*   tnil   a nil pointer of an element / resource type                     *)
 (*   input  the evaluation's own input collection (bound to %context)       *)
 (* ------------------------------------------------------------------------ *)
 VLeaf(it) == [vk |-> "leaf", item |-> it]
 VColl(es) == [vk |-> "coll", elems |-> es]
 VBad      == [vk |-> "bad"]
 VNil      == [vk |-> "nil"]
+VTNil     == [vk |-> "tnil"]       \* a typed nil pointer of a FHIR proto type: not an element
 VInput    == [vk |-> "input"]
 
 (* The statement of the property, used by the invariants; never mutated.    *)
@@ -196,8 +198,10 @@ Assignable(it, pt) ==
 
 (* What the instrumented custom function was configured to return.          *)
 RetItems == <<S(<<114, 101, 116>>), I(42)>>     \* 'ret', 42
-Ret(mode, input, calls) ==
+Ret(mode, input, args, calls) ==
   CASE mode = "items" -> OkR(RetItems, calls)
+    [] mode = "first" -> OkR(IF Len(args) > 0 THEN <<args[1]>> ELSE <<I(Len(input))>>, calls)
+    [] mode = "last"  -> OkR(IF Len(args) > 0 THEN <<args[Len(args)]>> ELSE <<I(Len(input))>>, calls)
     [] mode = "echo"  -> OkR(input, calls)
     [] mode = "empty" -> OkR(<<>>, calls)
     [] mode = "err"   -> ErrR("Custom", calls)
@@ -239,7 +243,7 @@ Ev(e, focus, cx) ==
                  IN IF sig.variadic \/ cx.tbl[e.fn].builtin \/ Len(e.args) # Len(sig.params) THEN AnyR
                     ELSE LET a == EvArgs(e.args, sig.params, 1, r.items, <<>>, r.calls, cx)
                          IN IF a.k # "ok" THEN a
-                            ELSE Ret(cx.ret, r.items,
+                            ELSE Ret(cx.ret, r.items, a.items,
                                      Append(a.calls, [fn |-> e.fn, input |-> r.items, args |-> a.items]))
 
 (* Arguments are evaluated one after the other on the function's input      *)
